@@ -17,6 +17,9 @@ LEVEL_TEXT = ("static: decides, for all messages and capacities: (CAP) every ele
 # fifth-round additions
 TECHNIQUE += "; " + 'disjunctive forward analysis over (status, result pointer) at the hand-out store of every legacy parser (R-C18-NODATA); dense-fill check of hostent arrays (index advanced only after a store)'
 LEVEL_TEXT += " " + '(NODATA) the result pointer is non-NULL wherever a parser hands it out under a successful status -- violated by six list parsers on the pinned tree (success with a NULL list for an answer section without records of the type), known findings, the pinned tests pin that behaviour; (TERM) the store index of h_addr_list/h_aliases advances only in rounds that stored an element.'
+# seventh/eighth-round addition
+TECHNIQUE += "; " + 'skip-edge vocabulary of the counted conversion loops (R-C18-SKIP)'
+LEVEL_TEXT += " " + '(SKIP, eighth round) inside the counted conversion loops an element is passed over only because of its type, class or a missing record, never because of its value (an empty character-string is a value).'
 LEVEL_NOTE = "trusts clang CFG + extractor; field-value equality with the record API for all messages is a differential property and needs execution"
 DESIGN_REF = "DESIGN.md §6/C18"
 EXPLANATION = LEVEL_TEXT
